@@ -500,6 +500,48 @@ func (c *Ctx) SpawnShards(n int, extra ...string) {
 	}
 }
 
+// RunPart runs another harness binary of the same property as a worker
+// (-tier, -shard 0/1, -out file) and merges its result into c. Used by checks
+// that consist of an engine-S part and an engine-Q part.
+func (c *Ctx) RunPart(binary string, extra ...string) {
+	if c.IsShard() || c.Replay != "" {
+		return
+	}
+	out := filepath.Join(os.TempDir(), fmt.Sprintf("verif-part-%d-%s.json", os.Getpid(), filepath.Base(binary)))
+	defer os.Remove(out)
+	// the part runs under its own default wall-clock budget
+	args := append([]string{"-tier", c.Tier, "-shard", "0/1", "-out", out}, extra...)
+	cmd := exec.Command(binary, args...)
+	if b, err := cmd.CombinedOutput(); err != nil {
+		c.EngineError("part %s failed: %v\n%s", binary, err, tail(string(b), 40))
+		return
+	}
+	if err := c.MergeShard(out); err != nil {
+		c.EngineError("part %s: %v", binary, err)
+	}
+}
+
+// ReplayPart hands a replay over to another harness binary of the same property if the
+// replay file mentions marker; it reports whether it did.
+func (c *Ctx) ReplayPart(marker, binary string) bool {
+	if c.Replay == "" {
+		return false
+	}
+	b, err := os.ReadFile(c.Replay)
+	if err != nil || !strings.Contains(string(b), marker) {
+		return false
+	}
+	cmd := exec.Command(binary, "-replay", c.Replay, "-tier", c.Tier)
+	cmd.Stdout, cmd.Stderr = os.Stdout, os.Stderr
+	if err := cmd.Run(); err != nil {
+		if ee, ok := err.(*exec.ExitError); ok && ee.ExitCode() == 1 {
+			c.Violate("replayed-by-part", marker, "see output above", "the replayed case still violates the property (details printed by the part)", nil)
+		}
+	}
+	c.Add(1, 1, 1)
+	return true
+}
+
 func tail(s string, n int) string {
 	l := strings.Split(s, "\n")
 	if len(l) > n {
